@@ -8,90 +8,289 @@ Each dunder has the shape
 The translator extracts, for both branches, the numpy-level operation, which operand comes first,
 whether the first constructor argument is `self.domain`, and (CellVariable) whether the boundary
 conditions argument is `deepcopy(self.BCs)`.  Anything else becomes `untranslated`.
+
+The method body is EVALUATED twice by a small symbolic executor, once under the assumption "the operand is a variable
+of the same class" and once under "it is not", so that behaviour-preserving spellings give the same table:
+  * any name for the operand parameter; docstrings, comments, `pass`;
+  * straight-line local temporaries (`res = self.value - other.value`), substituted;
+  * the class test `type(o) is C`, `type(o) == C`, `C is type(o)`, `o.__class__ is C`, `isinstance(o, C)` (the package
+    has no subclasses of the variable classes), their negations (`is not`, `!=`, `not (...)`) with the branches
+    swapped, `if T: return A` followed by `return B`, and the conditional expression `a if T else b`;
+  * delegation to another dunder of the same class (`return self.__add__(other)`, `return self + other`,
+    `return -self`, `return abs(self)`): the callee is evaluated in place (depth ≤ 3);
+  * `np.negative`, `np.abs / np.absolute / abs`, `np.add / subtract / multiply / divide / true_divide / power`,
+    `np.greater / greater_equal / less / less_equal`, `np.logical_and / logical_or`;
+  * a comparison written the other way round (`other <= self.value` for `self.value >= other`) is normalised to
+    "self first";
+  * `deepcopy(self.BCs)` or `copy.deepcopy(self.BCs)`; the keyword `BCsTerm_precalc=True` (its default).
+Checked in addition (a violation is `untranslated`): the variable branch reads the operand's array (`other.value`,
+`other._xvalue` …) and the other branch the bare operand; every FaceVariable component uses its own array
+(`_xvalue` for the first, `_yvalue` for the second, `_zvalue` for the third) on both operands.
 """
-import ast, sys, os, json
+import ast, sys, os, json, copy
 
 OPS = {ast.Add: "add", ast.Sub: "sub", ast.Mult: "mul", ast.Div: "div", ast.Pow: "pow",
        ast.Gt: "gt", ast.GtE: "ge", ast.Lt: "lt", ast.LtE: "le"}
-CALLS = {"logical_and": "land", "logical_or": "lor", "abs": "abs"}
+CALLS = {"logical_and": "land", "logical_or": "lor", "abs": "abs", "absolute": "abs", "negative": "neg",
+         "add": "add", "subtract": "sub", "multiply": "mul", "divide": "div", "true_divide": "div", "power": "pow",
+         "greater": "gt", "greater_equal": "ge", "less": "lt", "less_equal": "le"}
+UNARY = {"abs", "neg"}
+FLIP = {"gt": "lt", "ge": "le", "lt": "gt", "le": "ge"}
+BIN_DUNDER = {ast.Add: "add", ast.Sub: "sub", ast.Mult: "mul", ast.Div: "truediv", ast.Pow: "pow", ast.BitAnd: "and", ast.BitOr: "or"}
+CMP_DUNDER = {ast.Gt: "gt", ast.GtE: "ge", ast.Lt: "lt", ast.LtE: "le"}
+COMPONENTS = ("_xvalue", "_yvalue", "_zvalue")
 
 
 class Bad(Exception):
     pass
 
 
-def operand(node, cls):
-    """'self' | 'other' for the value expressions self.value / self._xvalue / other.value / other"""
+# ------------------------------------------------------------------ symbolic evaluation of a method body
+
+class SelfRef:
+    """marker nodes of the evaluated expressions"""
+
+
+def is_name(node, name):
+    return isinstance(node, ast.Name) and node.id == name
+
+
+class Ctx:
+    def __init__(self, cls, methods, other, assume_var, depth=0):
+        self.cls, self.methods, self.other, self.assume_var, self.depth = cls, methods, other, assume_var, depth
+        self.env = {}
+
+    # -- class test: True (operand is a variable of class cls) / False / None (not a class test)
+    def class_test(self, t):
+        if isinstance(t, ast.UnaryOp) and isinstance(t.op, ast.Not):
+            r = self.class_test(t.operand)
+            return None if r is None else (not r)
+        if isinstance(t, ast.Compare) and len(t.ops) == 1:
+            op, l, r = t.ops[0], t.left, t.comparators[0]
+            if isinstance(op, (ast.Is, ast.Eq, ast.IsNot, ast.NotEq)):
+                pos = isinstance(op, (ast.Is, ast.Eq))
+                for a, b in ((l, r), (r, l)):
+                    if self.is_type_of_other(a) and is_name(b, self.cls):
+                        return self.assume_var if pos else (not self.assume_var)
+        if isinstance(t, ast.Call) and is_name(t.func, "isinstance") and len(t.args) == 2 and not t.keywords:
+            if self.is_other(t.args[0]) and is_name(t.args[1], self.cls):
+                return self.assume_var
+        return None
+
+    def is_other(self, node):
+        node = self.resolve(node)
+        return self.other is not None and is_name(node, self.other)
+
+    def is_type_of_other(self, node):
+        node = self.resolve(node)
+        if isinstance(node, ast.Call) and is_name(node.func, "type") and len(node.args) == 1 and not node.keywords:
+            return self.is_other(node.args[0])
+        if isinstance(node, ast.Attribute) and node.attr == "__class__":
+            return self.is_other(node.value)
+        return False
+
+    def resolve(self, node):
+        """a local temporary stands for the expression it was assigned"""
+        seen = 0
+        while isinstance(node, ast.Name) and node.id in self.env and seen < 50:
+            node = self.env[node.id]
+            seen += 1
+        return node
+
+    def subst(self, node):
+        """expression with temporaries substituted and class tests / conditional expressions decided"""
+        if isinstance(node, ast.Name):
+            if node.id in self.env:
+                return self.env[node.id]
+            return node
+        if isinstance(node, ast.IfExp):
+            r = self.class_test(node.test)
+            if r is None:
+                raise Bad("conditional expression on something else than the class of the operand")
+            return self.subst(node.body if r else node.orelse)
+        new = copy.copy(node)
+        for field, val in ast.iter_fields(node):
+            if isinstance(val, ast.AST):
+                setattr(new, field, self.subst(val))
+            elif isinstance(val, list):
+                setattr(new, field, [self.subst(v) if isinstance(v, ast.AST) else v for v in val])
+        return new
+
+    def run(self, stmts):
+        """-> the returned expression (substituted) of the path taken under the assumption"""
+        for st in stmts:
+            if isinstance(st, ast.Expr) and isinstance(st.value, ast.Constant):
+                continue
+            if isinstance(st, ast.Pass):
+                continue
+            if isinstance(st, ast.Assign) and len(st.targets) == 1 and isinstance(st.targets[0], ast.Name):
+                nm = st.targets[0].id
+                if nm in ("self", self.other):
+                    raise Bad("operand re-bound")
+                self.env[nm] = self.subst(st.value)
+                continue
+            if isinstance(st, ast.Return):
+                if st.value is None:
+                    raise Bad("bare return")
+                return self.subst(st.value)
+            if isinstance(st, ast.If):
+                r = self.class_test(st.test)
+                if r is None:
+                    raise Bad("`if` on something else than the class of the operand")
+                saved = dict(self.env)
+                out = self.run(st.body if r else st.orelse)
+                if out is not None:
+                    return out
+                # the branch taken fell through: continue after the `if` with its bindings
+                continue
+            raise Bad(f"statement {type(st).__name__}")
+        return None
+
+
+def operand(node, other):
+    """('self'|'other', attribute or None)"""
     if isinstance(node, ast.Attribute) and isinstance(node.value, ast.Name):
-        if node.attr in ("value", "_xvalue", "_yvalue", "_zvalue") and node.value.id in ("self", "other"):
-            return node.value.id
-    if isinstance(node, ast.Name) and node.id == "other":
-        return "other"
+        if node.attr in ("value",) + COMPONENTS and (node.value.id == "self" or node.value.id == other):
+            return ("self" if node.value.id == "self" else "other"), node.attr
+    if other is not None and is_name(node, other):
+        return "other", None
     raise Bad(f"operand {ast.dump(node)[:60]}")
 
 
-def expr_op(node, cls):
-    """(op, order) with order 'so' (self first), 'os' (other first), 's' (unary)"""
+def expr_op(node, other):
+    """(op, order, [(who, attr), …]) with order 'so' (self first), 'os' (other first), 's' (unary)"""
+    def binary(op, l, r):
+        a, b = operand(l, other), operand(r, other)
+        order = "so" if (a[0], b[0]) == ("self", "other") else "os" if (a[0], b[0]) == ("other", "self") else "??"
+        if order == "os" and op in FLIP:        # `other <= self` is `self >= other`
+            op, order = FLIP[op], "so"
+        return op, order, [a, b]
     if isinstance(node, ast.BinOp) and type(node.op) in OPS:
-        a, b = operand(node.left, cls), operand(node.right, cls)
-        return OPS[type(node.op)], ("so" if (a, b) == ("self", "other") else "os" if (a, b) == ("other", "self") else "??")
+        return binary(OPS[type(node.op)], node.left, node.right)
     if isinstance(node, ast.Compare) and len(node.ops) == 1 and type(node.ops[0]) in OPS:
-        a, b = operand(node.left, cls), operand(node.comparators[0], cls)
-        return OPS[type(node.ops[0])], ("so" if (a, b) == ("self", "other") else "os" if (a, b) == ("other", "self") else "??")
+        return binary(OPS[type(node.ops[0])], node.left, node.comparators[0])
     if isinstance(node, ast.UnaryOp) and isinstance(node.op, ast.USub):
-        if operand(node.operand, cls) == "self":
-            return "neg", "s"
-    if isinstance(node, ast.Call) and isinstance(node.func, ast.Attribute) and isinstance(node.func.value, ast.Name) \
-            and node.func.value.id == "np" and node.func.attr in CALLS:
-        args = [operand(a, cls) for a in node.args]
-        if args == ["self"]:
-            return CALLS[node.func.attr], "s"
-        if args == ["self", "other"]:
-            return CALLS[node.func.attr], "so"
-        if args == ["other", "self"]:
-            return CALLS[node.func.attr], "os"
+        a = operand(node.operand, other)
+        if a[0] == "self":
+            return "neg", "s", [a]
+    if isinstance(node, ast.Call) and not node.keywords:
+        f = node.func
+        nm = None
+        if isinstance(f, ast.Attribute) and isinstance(f.value, ast.Name) and f.value.id in ("np", "numpy") and f.attr in CALLS:
+            nm = CALLS[f.attr]
+        elif is_name(f, "abs"):
+            nm = "abs"
+        if nm is not None:
+            args = [operand(a, other) for a in node.args]
+            if nm in UNARY:
+                if len(args) == 1 and args[0][0] == "self":
+                    return nm, "s", args
+            elif len(args) == 2:
+                return binary(nm, node.args[0], node.args[1])
     raise Bad(f"expression {ast.dump(node)[:80]}")
 
 
-def ret_info(ret, cls):
-    call = ret.value
+def is_self_attr(node, attr):
+    return isinstance(node, ast.Attribute) and isinstance(node.value, ast.Name) and node.value.id == "self" and node.attr == attr
+
+
+def is_deepcopy_self_bcs(b):
+    if not (isinstance(b, ast.Call) and len(b.args) == 1 and not b.keywords and is_self_attr(b.args[0], "BCs")):
+        return False
+    f = b.func
+    return is_name(f, "deepcopy") or (isinstance(f, ast.Attribute) and is_name(f.value, "copy") and f.attr == "deepcopy")
+
+
+def delegated(call, cx):
+    """name of the dunder of the same class the returned expression calls on (self, operand), or None"""
+    other = cx.other
+    if isinstance(call, ast.Call) and isinstance(call.func, ast.Attribute) and is_name(call.func.value, "self") \
+            and call.func.attr.startswith("__") and call.func.attr.endswith("__") and not call.keywords:
+        if (len(call.args) == 1 and other is not None and is_name(call.args[0], other)) or (len(call.args) == 0):
+            return call.func.attr, len(call.args)
+    if isinstance(call, ast.BinOp) and type(call.op) in BIN_DUNDER and is_name(call.left, "self") and other is not None and is_name(call.right, other):
+        return f"__{BIN_DUNDER[type(call.op)]}__", 1
+    if isinstance(call, ast.Compare) and len(call.ops) == 1 and type(call.ops[0]) in CMP_DUNDER and is_name(call.left, "self") \
+            and other is not None and is_name(call.comparators[0], other):
+        return f"__{CMP_DUNDER[type(call.ops[0])]}__", 1
+    if isinstance(call, ast.UnaryOp) and isinstance(call.op, ast.USub) and is_name(call.operand, "self"):
+        return "__neg__", 0
+    if isinstance(call, ast.Call) and is_name(call.func, "abs") and len(call.args) == 1 and not call.keywords and is_name(call.args[0], "self"):
+        return "__abs__", 0
+    return None
+
+
+def ret_info(call, cx):
+    cls, other = cx.cls, cx.other
+    d = delegated(call, cx)
+    if d is not None:
+        name, nargs = d
+        if cx.depth >= 3:
+            raise Bad("delegation too deep")
+        if name not in cx.methods:
+            raise Bad(f"delegates to {name}, which does not exist")
+        return eval_method(cx.methods[name], cls, cx.methods, cx.assume_var, cx.depth + 1, expect_args=nargs)
     if not (isinstance(call, ast.Call) and isinstance(call.func, ast.Name) and call.func.id == cls):
         raise Bad("does not return a new object of its own class")
     args = call.args
-    dom = isinstance(args[0], ast.Attribute) and isinstance(args[0].value, ast.Name) and args[0].value.id == "self" and args[0].attr == "domain"
+    if any(isinstance(a, ast.Starred) for a in args):
+        raise Bad("starred constructor argument")
+    for kw in call.keywords:
+        if not (cls == "CellVariable" and kw.arg == "BCsTerm_precalc" and isinstance(kw.value, ast.Constant) and kw.value.value is True):
+            raise Bad(f"constructor keyword {kw.arg}")
+    if not args:
+        raise Bad("constructor without arguments")
+    dom = is_self_attr(args[0], "domain")
+    want_attr = cx.assume_var       # the variable branch reads the operand's array, the other branch the bare operand
+
+    def check_operands(ops_, comp):
+        for who, attr in ops_:
+            if who == "self":
+                if attr != comp:
+                    raise Bad(f"component built from self.{attr}, expected self.{comp}")
+            else:
+                if want_attr and attr != comp:
+                    raise Bad(f"variable branch reads the operand as {('.' + attr) if attr else 'a bare value'}, expected .{comp}")
+                if not want_attr and attr is not None:
+                    raise Bad(f"non-variable branch reads .{attr} of the operand")
     if cls == "CellVariable":
         if len(args) != 3:
             raise Bad("CellVariable(...) arity")
-        op, order = expr_op(args[1], cls)
-        b = args[2]
-        bcs = (isinstance(b, ast.Call) and isinstance(b.func, ast.Name) and b.func.id == "deepcopy" and len(b.args) == 1
-               and isinstance(b.args[0], ast.Attribute) and isinstance(b.args[0].value, ast.Name)
-               and b.args[0].value.id == "self" and b.args[0].attr == "BCs")
-        return op, order, dom, "deepcopySelf" if bcs else "other"
+        op, order, ops_ = expr_op(args[1], other)
+        check_operands(ops_, "value")
+        return op, order, dom, "deepcopySelf" if is_deepcopy_self_bcs(args[2]) else "other"
     else:
         if len(args) != 4:
             raise Bad("FaceVariable(...) arity")
-        infos = [expr_op(a, cls) for a in args[1:]]
+        infos = []
+        for a, comp in zip(args[1:], COMPONENTS):
+            op, order, ops_ = expr_op(a, other)
+            check_operands(ops_, comp)          # each component uses its own array
+            infos.append((op, order))
         if len(set(infos)) != 1:
             raise Bad("components use different operations")
-        # each component must use its own array
         return infos[0][0], infos[0][1], dom, "none"
 
 
-def method_info(fn, cls):
-    rets = []
-    body = [s for s in fn.body if not (isinstance(s, ast.Expr) and isinstance(s.value, ast.Constant))]
-    if len(body) == 1 and isinstance(body[0], ast.Return):
-        r = ret_info(body[0], cls)
-        return r, r
-    if len(body) == 1 and isinstance(body[0], ast.If):
-        node = body[0]
-        t = node.test
-        ok = (isinstance(t, ast.Compare) and isinstance(t.left, ast.Call) and isinstance(t.left.func, ast.Name) and t.left.func.id == "type"
-              and isinstance(t.ops[0], ast.Is) and isinstance(t.comparators[0], ast.Name) and t.comparators[0].id == cls)
-        if ok and len(node.body) == 1 and isinstance(node.body[0], ast.Return) and len(node.orelse) == 1 and isinstance(node.orelse[0], ast.Return):
-            return ret_info(node.body[0], cls), ret_info(node.orelse[0], cls)
-    raise Bad("unexpected method shape")
+def eval_method(fn, cls, methods, assume_var, depth=0, expect_args=None):
+    a = fn.args
+    if a.vararg or a.kwarg or a.kwonlyargs or a.posonlyargs or a.defaults or fn.decorator_list:
+        raise Bad("unexpected signature")
+    params = [x.arg for x in a.args]
+    if not params or params[0] != "self" or len(params) > 2:
+        raise Bad("unexpected signature")
+    other = params[1] if len(params) == 2 else None
+    if expect_args is not None and expect_args != len(params) - 1:
+        raise Bad("delegation with the wrong number of arguments")
+    cx = Ctx(cls, methods, other, assume_var, depth)
+    ret = cx.run(fn.body)
+    if ret is None:
+        raise Bad("a path does not return")
+    return ret_info(ret, cx)
+
+
+def method_info(fn, cls, methods):
+    return eval_method(fn, cls, methods, True), eval_method(fn, cls, methods, False)
 
 
 DUNDERS = ["__add__", "__radd__", "__sub__", "__rsub__", "__mul__", "__rmul__", "__truediv__", "__rtruediv__", "__neg__", "__pow__", "__rpow__",
@@ -107,7 +306,10 @@ def generate(repo):
     for cls, path in (("CellVariable", "src/pyfvtool/cell.py"), ("FaceVariable", "src/pyfvtool/face.py")):
         tree = ast.parse(open(os.path.join(repo, path)).read())
         cdef = [n for n in tree.body if isinstance(n, ast.ClassDef) and n.name == cls][0]
-        methods = {n.name: n for n in cdef.body if isinstance(n, ast.FunctionDef)}
+        methods = {}
+        for n in cdef.body:
+            if isinstance(n, ast.FunctionDef):
+                methods[n.name] = n         # a later def replaces an earlier one
         rows_var, rows_other = [], []
         for d in DUNDERS:
             key = f"{cls}.{d}"
@@ -115,7 +317,7 @@ def generate(repo):
                 status[key] = "missing"
                 continue
             try:
-                a, b = method_info(methods[d], cls)
+                a, b = method_info(methods[d], cls, methods)
                 rows_var.append((d, a)); rows_other.append((d, b))
                 status[key] = "ok"
             except Bad as ex:
